@@ -12,6 +12,10 @@ NaN    == <<0, 0>>
 PosInf == <<1, 0>>
 NegInf == <<-1, 0>>
 
+\* "the property leaves this value open": emitted as an expectation only, never
+\* used in arithmetic; the replayer accepts any observed value
+AnyVal == <<0, -1>>
+
 Abs(x)  == IF x < 0 THEN -x ELSE x
 Sign(x) == IF x < 0 THEN -1 ELSE IF x > 0 THEN 1 ELSE 0
 
